@@ -3,6 +3,12 @@
   Theorems about `queueUndelegation` (one entry per successful undelegation, completion = block time + unbonding
   period) and `completeUnbondings` (an end-of-block removes exactly the buckets whose completion time is STRICTLY
   before the block time — never one that completes at or after it — and nothing is left behind for them).
+  The money side (proofs in AllianceProofs/Payout, UserBal, Conserve, ClaimStep): a user account's balance moves at an
+  end-of-block by exactly the matured entries naming it (`matured_entries_are_paid_exactly`); balance + amount still owed
+  by the queue is conserved there (`claim_conserved_at_block_boundary`, and in every history with no index key left for
+  a paid entry: `claim_conserved_in_every_history`); a successful undelegation adds exactly its amount to what is owed
+  to its delegator (`undelegation_adds_exactly_its_amount`), the other user operations and governance add nothing;
+  what a slash takes off pending entries is C07's `every_pending_entry_cut_exactly_once`.
 -/
 import AllianceProofs
 namespace Alliance
@@ -30,65 +36,11 @@ theorem entry_created_frame (del : Acct) (v : ValId) (d : Denom) (amt : Int) (w 
   rw [entry_created]
   exact AL.get_set_ne _ _ _ _ hk
 
-/-- erase all given keys -/
-def eraseAll (q : List (UndelKey × List Undel)) (ks : List (UndelKey × List Undel)) : List (UndelKey × List Undel) :=
-  ks.foldl (fun q b => AL.erase q b.1) q
-
-private theorem loop_queue (ms : List (UndelKey × List Undel)) (w0 w1 : World)
-    (h : forEachM payBucket ms w0 = (.ok (), w1)) : w1.undelQueue = eraseAll w0.undelQueue ms := by
-  induction ms generalizing w0 with
-  | nil =>
-    unfold forEachM at h
-    simp only [pure_apply] at h
-    injection h with _ h2
-    rw [← h2]; rfl
-  | cons b t ih =>
-    unfold forEachM at h
-    simp only [bind_apply] at h
-    rcases hb : payBucket b w0 with ⟨r, wb⟩
-    rw [hb] at h
-    cases r with
-    | error e => simp at h
-    | ok u =>
-      simp only at h
-      have hq : wb.undelQueue = AL.erase w0.undelQueue b.1 := by
-        unfold payBucket at hb
-        simp only [bind_apply] at hb
-        have hf := (FrameUQ.forEachM (payEntry b.1.1) b.2 (fun e => FrameUQ.payEntry _ e)).frame w0
-        rcases hi : forEachM (payEntry b.1.1) b.2 w0 with ⟨ri, wi⟩
-        rw [hi] at hb hf
-        cases ri with
-        | error e => simp at hb
-        | ok ui =>
-          simp only [modifyW_apply] at hb
-          injection hb with _ h2
-          rw [← h2]
-          show AL.erase wi.undelQueue b.1 = _
-          have : wi.undelQueue = w0.undelQueue := hf
-          rw [this]
-      rw [ih wb h, hq]
-      rfl
-
 /-- when `CompleteUnbondings` succeeds, the queue afterwards is the queue before with exactly the matured buckets
-    (completion strictly before the block time) erased: nothing that completes at or after the block time is paid or
-    removed, and no matured bucket is left behind -/
+    (completion strictly before the block time) erased (`eraseAll`, AllianceProofs/Conserve): nothing that completes at
+    or after the block time is paid or removed, and no matured bucket is left behind -/
 theorem complete_exact (w : World) (hok : (completeUnbondings w).1 = .ok ()) :
-    (completeUnbondings w).2.undelQueue = eraseAll w.undelQueue (maturedBuckets w) := by
-  unfold completeUnbondings at *
-  simp only [bind_apply, getW_apply] at *
-  rcases hl : forEachM payBucket (maturedBuckets w) w with ⟨r, w1⟩
-  try rw [hl] at hok
-  cases r with
-  | error e => simp at hok
-  | ok u =>
-    simp only at hok ⊢
-    have hq := loop_queue _ w w1 hl
-    split
-    · have := (FrameUQ.burnCoin accModule w1.staking.bondDenom (bankBalance w1 accModule w1.staking.bondDenom)).frame w1
-      show FrameUQ.π _ = _
-      rw [this]
-      exact hq
-    · exact hq
+    (completeUnbondings w).2.undelQueue = eraseAll w.undelQueue (maturedBuckets w) := completeUnbondings_queue w hok
 
 /-- keys at or after the block time survive `eraseAll (matured w)`: never paid before maturity -/
 theorem pending_survives (w : World) (k : UndelKey) (hk : ¬ k.1 < w.time) :
@@ -147,6 +99,69 @@ theorem matured_just_after (w : World) (b : UndelKey × List Undel) (hm : b ∈ 
   simp
   unfold Time at *
   omega
+
+/-! ## the money side of the block boundary, and every history -/
+
+/-- exact amount, once: a successful end-of-block moves a user account's balance of every denom by exactly the sum of the
+    (possibly slashed) balances of the matured entries that name it — take-rate, reward indexing, decay and rebalancing
+    move coins between system accounts only -/
+theorem matured_entries_are_paid_exactly (u : Acct) (d : Denom) (hu : IsUser u) (w w' : World)
+    (h : endBlocker w = (.ok (), w')) : bankBalance w' u d = bankBalance w u d + owedNow u d w :=
+  endBlocker_pays_user' hu w w' h
+
+/-- nothing twice, nothing lost, nothing early: balance + amount the queue still owes the account is conserved by the
+    end-of-block, and the queue afterwards is exactly the buckets that have not matured -/
+theorem claim_conserved_at_block_boundary (u : Acct) (d : Denom) (hu : IsUser u) (w w' : World)
+    (hs : AL.SortedBy undelKeyOrder w.undelQueue) (h : endBlocker w = (.ok (), w')) :
+    bankBalance w' u d + owedAll u d w' = bankBalance w u d + owedAll u d w ∧
+    w'.undelQueue = w.undelQueue.filter (fun b => !decide (b.1.1 < w.time)) :=
+  endBlocker_conserves_claim hu w w' hs h
+
+/-- … in every state of every history from a state where index and queue agree; and afterwards the index holds no key
+    of a paid entry (every remaining key leads to a bucket that has not matured) -/
+theorem claim_conserved_in_every_history (u : Acct) (d : Denom) (hu : IsUser u) (w0 w w' : World) (h0 : IX w0)
+    (hr : ReachU w0 w) (h : endBlocker w = (.ok (), w')) :
+    bankBalance w' u d + owedAll u d w' = bankBalance w u d + owedAll u d w ∧
+    (∀ k ∈ w'.undelIndex, ¬ k.2.1 < w.time) := by
+  have hix := reach_ix w0 w h0 hr
+  obtain ⟨h1, h2⟩ := endBlocker_conserves_claim (d := d) hu w w' hix.qsorted h
+  refine ⟨h1, ?_⟩
+  intro k hk
+  have hix' : IX w' := endBlocker_ix.run w w' () h hix
+  obtain ⟨es, hes, _⟩ := hix'.witness k hk
+  have hm := AL.get_some_mem _ _ _ hes
+  rw [h2] at hm
+  have := (List.mem_filter.mp hm).2
+  simpa using this
+
+/-- creation side: a successful `MsgUndelegate` of `amt` adds exactly `amt` to what the queue owes the delegator in that
+    denom, and nothing to any other (account, denom) -/
+theorem undelegation_adds_exactly_its_amount (del : Acct) (v : ValId) (dn : Denom) (amt : Int) (u : Acct) (d : Denom)
+    (w w' : World) (hs : QS w) (h : step (.undelegate del v dn amt) w = (.ok (), w')) :
+    owedAll u d w' = owedAll u d w + (if del = u ∧ dn = d then amt else 0) :=
+  undelegate_adds_claim del v dn amt u d w w' hs h
+
+/-- delegation, redelegation, claims and governance leave every account's pending amount alone -/
+theorem other_operations_leave_pending_amounts (op : Op) (u : Acct) (d : Denom) (w w' : World) (hs : QS w)
+    (hop : match op with | .delegate .. | .redelegate .. | .claim .. | .createAlliance .. | .updateAlliance .. |
+                          .deleteAlliance .. | .updateParams .. => True | _ => False)
+    (h : step op w = (.ok (), w')) : owedAll u d w' = owedAll u d w := other_ops_keep_claim op u d w w' hs hop h
+
+/-- non-vacuity: account 10 is a user; at time 5 one of its two buckets (completion 3) has matured: the end-of-block succeeds,
+    pays the 500 and leaves the 1000 owed -/
+def exW2 : World := { (default : World) with
+  time := 5
+  params := { rewardDelay := 0, takeRateInterval := 100, lastTakeRateClaim := 0 }
+  undelQueue := [((3, 10), [{ del := 10, val := 0, denom := 0, amount := 500 }]),
+                 ((9, 10), [{ del := 10, val := 0, denom := 0, amount := 1000 }])]
+  undelIndex := [(0, 3, 0, 10), (0, 9, 0, 10)]
+  bank := [((0, 0), 10000)] }
+example : (match (endBlocker exW2).1 with | .ok _ => true | _ => false) = true ∧
+   owedNow 10 0 exW2 = 500 ∧ owedAll 10 0 exW2 = 1500 ∧
+   bankBalance (endBlocker exW2).2 10 0 = 500 ∧ owedAll 10 0 (endBlocker exW2).2 = 1000 := by decide
+
+
+example : IsUser 10 := by unfold IsUser; decide
 
 end C02
 end Alliance
